@@ -1,5 +1,5 @@
 (* The single entry point of the correspondence drivers. *)
-From PV Require Import Common.Wire Frame.Dispatch Chain.Dispatch Socks.Dispatch Mux.Dispatch Flow.Dispatch Keepalive.Model Atomic.Model Gate.Model Client.Backoff Tls.Model Tunnel.Direct.
+From PV Require Import Common.Wire Frame.Dispatch Chain.Dispatch Socks.Dispatch Mux.Dispatch Flow.Dispatch Keepalive.Model Atomic.Model Atomic.TwoWriters Gate.Model Client.Backoff Tls.Model Tunnel.Direct.
 
 Definition dispatch (c : list N) : list N :=
   match c with
@@ -10,6 +10,7 @@ Definition dispatch (c : list N) : list N :=
   | 31 :: r => run_flow r
   | 16 :: r => run_keepalive r
   | 12 :: r => run_atomic r
+  | 13 :: r => run_atomic2 r
   | 14 :: r => run_gate r
   | 19 :: r => run_client r
   | 17 :: r => run_tls r
